@@ -11,6 +11,12 @@ CLAIMED = {
   text="Generated-input search over each helper's uint64 domain with boundary bias (0, 1, 2^k±2, perfect squares ±2, 2^64-1, representability edges) against big-integer formulas; both directions are checked for helpers with an error result (value iff representable, error iff not). Sampling, not exhaustion: the domain is 2^64 per argument.",
   note="Trusted: math/big, crypto/sha256, the harness's 10-line Merkle fold. NextPowerOfTwo(0) is pinned by the repo's own test and not judged. Absence of a counterexample in ~10^5..10^7 biased cases is not a proof.",
   ref="§3 C19"),
+ "C06": dict(
+  technique="property-based testing (rapid) plus enumeration of a contiguous size range: every index of generated (seed, rounds, n) lists against a from-spec compute_shuffled_index; inverse and multiset relations",
+  level="exploration",
+  text="Every index of each generated list is compared with compute_shuffled_index transcribed from the spec; inverses are checked in both compositions and as whole-list operations; sizes 0..400 (quick) / 0..1100 (thorough) are enumerated completely for fixed seeds and round counts, all round counts 0..255 at four sizes, plus random triples with pivot-at-the-edge seeds found by search. Seeds are sampled (2^256), so this is exploration.",
+  note="Trusted: crypto/sha256 and the 20-line spec transcription (asserted bijective on every case). Sizes above 20000 and all 2^256 seeds are out of reach.",
+  ref="§3 C06"),
 }
 PENDING_REASON = "check not built yet in this session (designed in DESIGN.md §3; will be claimed when its machinery is committed)"
 
